@@ -276,6 +276,92 @@ class Str:
         return 'Str(%r)' % (self.s,)
 
 
+class TextAlts:
+    """symbolic text kept propositional: guarded alternatives, each a tuple of pieces - python str literals and
+    ('addr', AddrV) for a pointer rendered with {:p} ("0x" + hex digits; injective in the allocation)"""
+    __slots__ = ('alts',)
+
+    def __init__(self, alts):
+        self.alts = list(alts)
+
+    @staticmethod
+    def of(s):
+        if isinstance(s, TextAlts):
+            return s
+        if isinstance(s, str):
+            return TextAlts([(True, (s,))])
+        # an ite tree over string literals (what merging concrete strings produces)
+        if z3.is_string_value(s):
+            return TextAlts([(True, (s.as_string(),))])
+        if z3.is_app_of(s, z3.Z3_OP_ITE):
+            c, a, b = s.children()
+            A, B = TextAlts.of(a), TextAlts.of(b)
+            return TextAlts([(gand(c, g), p) for g, p in A.alts] + [(gand(gnot(c), g), p) for g, p in B.alts])
+        raise EngineError('text of a solver string term')
+
+    def __repr__(self):
+        return 'TextAlts(%d)' % len(self.alts)
+
+
+def _norm_pieces(ps):
+    out = []
+    for p in ps:
+        if isinstance(p, str):
+            if p == '':
+                continue
+            if out and isinstance(out[-1], str):
+                out[-1] += p
+            else:
+                out.append(p)
+        else:
+            out.append(p)
+    return out
+
+
+def text_eq(veq, A, B):
+    """Bool: two TextAlts denote the same string"""
+    import re as _re
+    res = False
+    for ga, pa in A.alts:
+        for gb, pb in B.alts:
+            pa2, pb2 = _norm_pieces(pa), _norm_pieces(pb)
+            if len(pa2) == len(pb2) and all(isinstance(x, str) == isinstance(y, str) for x, y in zip(pa2, pb2)):
+                e = True
+                for x, y in zip(pa2, pb2):
+                    if isinstance(x, str):
+                        e = gand(e, x == y)
+                    elif x[0] != y[0]:
+                        e = False       # a rendered pointer ("0x..") is never a decimal number
+                    elif x[0] == 'int':
+                        e = gand(e, x[1] == y[1])
+                    else:
+                        e = gand(e, veq.eq(x[1], y[1]))
+            else:
+                # different piece structure: equal only if a literal could be read as a rendered pointer
+                lit = ''.join(x if isinstance(x, str) else '0x0' for x in pa2), ''.join(x if isinstance(x, str) else '0x0' for x in pb2)
+                allstr_a = all(isinstance(x, str) for x in pa2)
+                allstr_b = all(isinstance(x, str) for x in pb2)
+                if allstr_a != allstr_b:
+                    concrete = ''.join(pa2) if allstr_a else ''.join(pb2)
+                    other = pb2 if allstr_a else pa2
+                    pat = ''.join(_re.escape(x) if isinstance(x, str) else ('0x[0-9a-f]+' if x[0] == 'addr' else '([0-9]+)') for x in other)
+                    mm = _re.fullmatch(pat, concrete)
+                    if mm and any(not isinstance(x, str) and x[0] == 'addr' for x in other):
+                        raise EngineError('a literal text that reads like a rendered pointer: %r' % concrete)
+                    if mm:
+                        # literal digits against rendered integers: equal values
+                        e = True
+                        ints = [x for x in other if not isinstance(x, str)]
+                        for x, d in zip(ints, mm.groups()):
+                            e = gand(e, x[1] == z3.BitVecVal(int(d), x[1].size())) if int(d) < (1 << x[1].size()) and (d == '0' or not d.startswith('0')) else False
+                    else:
+                        e = False
+                else:
+                    raise EngineError('comparison of differently structured symbolic texts')
+            res = gor(res, gand(ga, gb, e))
+    return res
+
+
 class Closure:
     __slots__ = ('cid', 'caps', 'cells')
 
@@ -579,6 +665,9 @@ def merge(c, a, b, ctx=None):
             raise Unmergeable()
         return Seq(merge(c, x, y, ctx) for x, y in zip(a.items, b.items))
     if ta is Str:
+        if isinstance(a.s, TextAlts) or isinstance(b.s, TextAlts):
+            A, B = TextAlts.of(a.s), TextAlts.of(b.s)
+            return Str(TextAlts([(gand(c, g), p) for g, p in A.alts] + [(gand(gnot(c), g), p) for g, p in B.alts]))
         if isinstance(a.s, str) and isinstance(b.s, str):
             if a.s == b.s:
                 return a
@@ -718,6 +807,8 @@ class Veq:
                 return False
             return gand(*[self.eq(x, y) for x, y in zip(a.items, b.items)])
         if isinstance(a, Str):
+            if isinstance(a.s, TextAlts) or isinstance(b.s, TextAlts):
+                return text_eq(self, TextAlts.of(a.s), TextAlts.of(b.s))
             if isinstance(a.s, str) and isinstance(b.s, str):
                 return a.s == b.s
             sa = z3.StringVal(a.s) if isinstance(a.s, str) else a.s
